@@ -110,6 +110,8 @@ def build():
     for a, b_, p in itertools.product([0, 1], repeat=3):
         flags = set(STANDARD_ON) | ({"no_integer_leading_zeros"} if a else set()) | ({"no_float_leading_zeros"} if b_ else set())
         fs.append(Fmt("LZERO", f"lzero_{a}{b_}{p}", flags, prefix="x" if p else None))
+        if a or b_:
+            fs.append(Fmt("LZERO", f"lzero_suffix_{a}{b_}{p}", flags, prefix="x" if p else None, suffix="h"))
     # CASE cluster: exponent / prefix / suffix case sensitivity with prefix x and suffix h (radix 10 and 16)
     for a, b_, c in itertools.product([0, 1], repeat=3):
         flags = set(STANDARD_ON) | ({"case_sensitive_exponent"} if a else set()) | ({"case_sensitive_base_prefix"} if b_ else set()) | ({"case_sensitive_base_suffix"} if c else set())
@@ -141,6 +143,29 @@ def build():
     fs.append(Fmt("TWIN", "twin_hex_hexexp", radix=16, base=16, eradix=16))
     fs.append(Fmt("TWIN", "twin_dec_hexexp", radix=10, base=10, eradix=16))
     fs.append(Fmt("TWIN", "twin_prefix_suffix", prefix="x", suffix="h", radix=16, base=2, eradix=10))
+    # SEPX (sepf_*): separators x syntax flags / base prefix / base suffix, with their separator-free twins
+    bases = {
+        "lzero": dict(flags=set(STANDARD_ON) | {"no_integer_leading_zeros", "no_float_leading_zeros"}),
+        "nodigits": dict(flags=set()),
+        "reqall": dict(flags=set(STANDARD_ON) | {"required_integer_digits", "required_fraction_digits"}),
+        "signs": dict(flags=set(STANDARD_ON) | {"required_mantissa_sign", "required_exponent_sign"}),
+        "nopos": dict(flags=set(STANDARD_ON) | {"no_positive_mantissa_sign", "no_positive_exponent_sign"}),
+        "noexpnofrac": dict(flags=set(STANDARD_ON) | {"no_exponent_without_fraction"}),
+        "reqexp": dict(flags=set(STANDARD_ON) | {"required_exponent_notation"}),
+        "noexp": dict(flags=set(STANDARD_ON) | {"no_exponent_notation"}),
+        "suffix": dict(suffix="h", radix=16, base=2, eradix=10),
+        "prefix": dict(prefix="x", radix=16, base=2, eradix=10),
+    }
+    variants = {
+        "all": allflags,
+        "i": {(c, "internal"): True for c in COMP},
+        "l": {(c, "leading"): True for c in COMP},
+        "t": {(c, "trailing"): True for c in COMP},
+    }
+    for bn, kw in bases.items():
+        fs.append(Fmt("TWIN", f"twinf_{bn}", **kw))
+        for vn, sf in variants.items():
+            fs.append(Fmt("SEPX", f"sepf_{bn}__{vn}", sep="_", sepflags=dict(sf), **kw))
     # INVALID: one format per class of invalidity (never used for parsing values: every entry
     # point must answer with a configuration error)
     inv = [
